@@ -68,8 +68,8 @@ def run(ctx):
         n_sc = 1
     else:
         ctx.mc("BtcCoins", "BtcCoins_mc_quick.cfg" if q else "BtcCoins_mc_thorough.cfg", timeout=1500)
-        n_sc = 100 if q else 1500
-        out = ctx.driver(b, ["record", str(n_sc)], timeout=3000)
+        n_sc = 100 if q else 1000
+        out = ctx.driver(b, ["record", str(n_sc)], timeout=14000)   # generous: the real branch-and-bound search may take 1e6 tries
     traces = sorted([o for o in out if "trace" in o], key=lambda o: o["trace"])
     if len(traces) != n_sc:
         ctx.fail("driver recorded %d of %d scenarios" % (len(traces), n_sc))
